@@ -16,7 +16,11 @@ pub fn is_string_format(ch: char) -> bool {
 pub const FORMAT_LETTERS: &str = "uUsPZDTSMCNBpind";
 
 const STRS: [&str; 12] = ["a", "b", "main", "libfoo", "0x10", "0x1f", "f", "sym1", "", "0x2a", "Other", "libbar"];
-const LIBS: [&str; 7] = ["libfoo", "libbar", "main", "a", "v1/libfoo", "v2/libfoo", "x/a"];
+// `#<variant>`: same name and path, different debug id / code id / arch / debug name (two builds of one library)
+const LIBS: [&str; 13] = [
+    "libfoo", "libbar", "main", "a", "v1/libfoo", "v2/libfoo", "x/a", "libfoo#d1", "libfoo#d2", "libfoo#c1", "libfoo#a1",
+    "libfoo#n1", "v1/libfoo#d1c2",
+];
 const CATS: [(&str, u64); 5] = [("Other", 12), ("Regular", 5), ("JS", 8), ("Other", 5), ("StCat", 6)];
 const SUBS: [&str; 4] = ["Other", "x", "y", "JIT"];
 const PIDS: [u64; 6] = [1, 1, 2, 9, 10, 100];
@@ -915,6 +919,34 @@ pub fn fixed_cases(_tier: Tier) -> Vec<Case> {
             "faddr f5 t1 ra 21 o 0",
             "unmap p1 16",
             "stackframes k1 t1 f1 f2 f3 f4 f5",
+            "sample t1 1 k1 0",
+        ],
+    ));
+    // libraries that agree in name and path and differ only in debug id / code id / arch / debug name, all used on
+    // one thread through mappings and relative addresses
+    v.push(case(
+        "libs-differing-only-in-ids",
+        &[
+            &format!("process p1 1 0 {a}"),
+            "thread t1 p1 1 0 1",
+            &format!("lib l1 {}", hx("libfoo")),
+            &format!("lib l2 {}", hx("libfoo#d1")),
+            &format!("lib l3 {}", hx("libfoo#d2")),
+            &format!("lib l4 {}", hx("libfoo#c1")),
+            &format!("lib l5 {}", hx("libfoo#a1")),
+            &format!("lib l6 {}", hx("libfoo#n1")),
+            &format!("lib l7 {}", hx("libfoo#d1")),
+            "map p1 l3 4096 8192 0",
+            "frel f1 t1 ip l6 100 o 0",
+            "frel f2 t1 ip l2 100 o 0",
+            "faddr f3 t1 ip 4196 o 0",
+            "frel f4 t1 ip l1 100 o 0",
+            "frel f5 t1 ip l4 100 o 0",
+            "frel f6 t1 ip l5 100 o 0",
+            "frel f7 t1 ip l7 100 o 0",
+            &format!("nsym n1 t1 l4 96 8 {a}"),
+            &format!("nsym n2 t1 l5 96 8 {b}"),
+            "stackframes k1 t1 f1 f2 f3 f4 f5 f6 f7",
             "sample t1 1 k1 0",
         ],
     ));
